@@ -33,6 +33,8 @@ func init() {
 			"sanitiser call (interprocedural backward slice; descriptor fields and tar header fields are the taint sources; unknown os functions fail closed); " +
 			"(R2) the three sanitisers reject: filepath.Rel plus the '../'-prefix and '..' tests lie on every successful return, the ancestor walk Lstats every " +
 			"parent on every iteration and a symlink ancestor never leads to success, a relative link target is resolved against the link's directory before validation; " +
+			"(R2, added) the write-path sanitiser must also cover symbolic links in the *parent* components of a name (ancestor Lstat walk, delegation to the archive-entry sanitiser, or EvalSymlinks before Rel) — " +
+			"today it does not (new genuine defect, failing input in checker/c11_demo_symlinked_parent.txt); " +
 			"(R3) sinks that follow a symbolic link in the last component (Create, OpenFile without O_EXCL/O_NOFOLLOW, Chmod, …) on a sanitised-but-attacker-named path need a " +
 			"dominating no-follow guard on the same value, and os.Link's old name must be the validated path itself (known genuine defects D6, D7 are reported here). " +
 			"NOT decided (not applicable to static analysis): completeness of the lexical check over all entry sequences, races between check and use, behaviour of the OS path resolution.",
@@ -888,6 +890,7 @@ func c11R2(c *Ctx, roles *c11Roles) {
 	c.Expect(R2, 12)
 	for _, fn := range roles.SW {
 		c11R2Lexical(c, R2, fn, true)
+		c11R2WritePathAncestors(c, fn, roles)
 	}
 	for _, fn := range roles.SR {
 		c11R2Lexical(c, R2, fn, false)
@@ -987,6 +990,73 @@ func c11R2Lexical(c *Ctx, R2 string, fn *ssa.Function, hasAllow bool) {
 	c.Check(R2, tn+"|validates-what-it-returns", rels[0].Pos(), okArgs,
 		ifelse(okArgs, "the path handed to filepath.Rel and the path returned to the caller have the same origin",
 			"the path that is validated is not the path that is returned (or the base is not the working directory): the check does not cover the value the caller writes to"))
+}
+
+// c11R2WritePathAncestors: a name whose *parent* components pass through a
+// symbolic link (planted by an earlier unpack, or pre-existing) resolves
+// outside the working directory although it is lexically inside.  The
+// write-path sanitiser therefore needs what the archive-entry sanitiser has:
+// an Lstat walk over the ancestors (own loop, or delegation to the
+// archive-entry sanitiser), or a containment check on the symlink-resolved
+// path (filepath.EvalSymlinks feeding filepath.Rel).
+// Not in DESIGN §4 — added after the concrete failing input in
+// checker/c11_demo_symlinked_parent.txt was observed on the pinned tree.
+func c11R2WritePathAncestors(c *Ctx, fn *ssa.Function, roles *c11Roles) {
+	const R = "C11.R2.write-path-ancestor-symlinks"
+	tn := FnName(fn)
+	atoms := c11SuccessAtoms(fn)
+	allowT, _ := BoolTests(fn, c11FieldReads(fn, c11AllowField))
+	pass := func(edges []Edge) bool {
+		return len(edges) > 0 && len(atoms) > 0 && c11AllAtomsPass(atoms, func() *cut { return newCut().Edges(allowT...).Edges(edges...) })
+	}
+	// (a) delegation to the archive-entry sanitiser
+	for _, call := range Calls(fn, func(string) bool { return true }) {
+		if g := StaticCallee(call); g != nil && roles.role[g] == "archive-entry" {
+			if e := ErrOf(call); e != nil {
+				ne, _, _ := NilTests(fn, Aliases(e))
+				if pass(ne) {
+					c.OK(R, tn+"|ancestor-walk", call.Pos(), "every successful return (traversal not allowed) lies behind a successful call of the archive-entry sanitiser, which walks the ancestors")
+					return
+				}
+			}
+		}
+	}
+	// (b) own Lstat loop rejecting symlinks
+	for _, l := range Loops(fn) {
+		for _, L := range CallsTo(fn, "os.Lstat") {
+			if !l.Contains(L.(ssa.Instruction)) {
+				continue
+			}
+			info := ResultOf(L, 0)
+			if info == nil {
+				continue
+			}
+			sym, _ := c11SymlinkEdges(c.P, fn, Aliases(info))
+			okSym := len(sym) > 0
+			for _, e := range sym {
+				if reach(e.To, 0, l.Header.Instrs[0], nil) || findNilReturnFrom(fn, e, ErrResultIndex(fn.Signature), newCut(), map[ssa.Value]bool{}) != nil {
+					okSym = false
+				}
+			}
+			if okSym && pass(l.Exits) {
+				c.OK(R, tn+"|ancestor-walk", L.Pos(), "every successful return (traversal not allowed) leaves through the ancestor Lstat loop, in which a symlink ancestor ends in an error")
+				return
+			}
+		}
+	}
+	// (c) containment computed on the symlink-resolved path
+	for _, r := range CallsTo(fn, "path/filepath.Rel") {
+		for _, ev := range CallsTo(fn, "path/filepath.EvalSymlinks") {
+			if v := ResultOf(ev, 0); v != nil && c11DerivesFrom(r.Common().Args[1], map[ssa.Value]bool{v: true}) {
+				c.OK(R, tn+"|ancestor-walk", r.Pos(), "filepath.Rel is applied to the symlink-resolved (EvalSymlinks) path")
+				return
+			}
+		}
+	}
+	c.Violation(R, tn+"|ancestor-walk", fn.Pos(), "the write-path sanitiser is lexical only: it neither walks the ancestors of the name with Lstat (as the archive-entry sanitiser does) nor resolves symbolic links before "+
+		"filepath.Rel. A named blob titled \"<dir>/<link>/evil.txt\", where <link> is a symbolic link inside the working directory that points outside (planted by an earlier unpacked archive via "+
+		"up -> ../.. ; x -> up/../../outside, or pre-existing), passes the check and os.MkdirAll/os.Create then write outside the working directory; Push returns nil "+
+		"(demo: checker/c11_demo_symlinked_parent.txt)")
 }
 
 func c11ModeSymlinkBit(p *Prog) int64 {
